@@ -379,6 +379,7 @@ var Mutants = map[string][]Mutant{
 		{"Linebreak looks at items[b+1] unguarded", "text/linebreak.go", `\(len\(lb\.items\) <= b\+1 \|\| lb\.items\[b\+1\]\.Type != PenaltyType\)`, `lb.items[b+1].Type != PenaltyType`, "E4.neighbour-guard"},
 	},
 	"C18": {
+		{"all bfchar entries in one block", "renderers/pdf/writer.go", `block := bfChar\[i:min\(i\+100, len\(bfChar\)\)\]`, "block := bfChar[i:]", "E5.cmap-block-limit"},
 		{"kerning adjustment truncated toward zero", "renderers/pdf/writer.go", `int\(math\.Round\(f \* float64\(kern\)\)\)|int\(math\.Round\(f\*float64\(kern\)\)\)`, "int(f*float64(kern) + 0.5)", "E5.signed-rounding"},
 		{"font names remembered per document, numbered per page", "renderers/pdf/writer.go", `(?s)(func \(w \*pdfPageWriter\) SetFont\(.*?)\t\t\} else \{\n\t\t\tfor name, fontRef := range w\.resources\["Font"\]\.\(pdfDict\) \{.*?\n\t\t\}\n\n\t\tname := (pdfName\(fmt\.Sprintf\("F%d", len\(w\.resources\["Font"\]\.\(pdfDict\)\)\)\))\n`, "var fontNames = map[pdfRef]pdfName{}\n\n${1}\t\t}\n\n\t\tname, ok := fontNames[ref]\n\t\tif !ok {\n\t\t\tname = ${2}\n\t\t\tfontNames[ref] = name\n\t\t}\n", "E5.name-memo-scope"},
 		{"control bytes of glyph codes written as unpadded octal escapes", "renderers/pdf/writer.go", `(?s)(glyphID := subset\.Get\(glyph\.ID\).*?\t\t\t\t\t\tw\.WriteByte\('\\\\'\)\n\t\t\t\t\t\tw\.WriteByte\(c\)\n)(\t\t\t\t\t\} else \{)`, "${1}\t\t\t\t\t} else if 0 < c && c < ' ' {\n\t\t\t\t\t\tfmt.Fprintf(w, \"\\\\%o\", c)\n${2}", "E5.glyph-string-escapes"},
